@@ -132,16 +132,20 @@ Definition lex1 (s : str) : option (tok * str) :=
       if sq_space_start c then let (a, b) := span sq_space r in Some (TSpace (c :: a), b)
       else if N.eqb c 45 then
         match r with
-        | 45 :: r' => let (a, b) := to_eol r' in Some (TComment (45 :: 45 :: a) true, b)
-        | _ => Some (TOther c, r)
+        | d :: r' =>
+            if N.eqb d 45 then let (a, b) := to_eol r' in Some (TComment (c :: d :: a) true, b)
+            else Some (TOther c, r)
+        | [] => Some (TOther c, r)
         end
       else if N.eqb c 47 then
         match r with
-        | 42 :: ((_ :: _) as r') =>
-            match block_end r' with
-            | Some (a, b) => Some (TComment (47 :: 42 :: a) true, b)
-            | None => Some (TComment s false, [])
-            end
+        | d :: ((_ :: _) as r') =>
+            if N.eqb d 42 then
+              match block_end r' with
+              | Some (a, b) => Some (TComment (c :: d :: a) true, b)
+              | None => Some (TComment s false, [])
+              end
+            else Some (TOther c, r)
         | _ => Some (TOther c, r)
         end
       else if is_quote c then
